@@ -1260,4 +1260,10 @@ def _to_extended_offset_and_delta(offsetSeconds: int, deltaSeconds: int) -> \
     offsetCode = offsetSeconds // 900  # truncate to -infinty
     offsetMinute = (offsetSeconds % 900) // 60  # always positive
     baseDeltaCode = _to_extended_delta_code(deltaSeconds)
-    return (offsetCode, f"({offsetMinute} << 4) + {baseDeltaCode}")
+    deltaCode = f"({offsetMinute} << 4) + {baseDeltaCode}"
+    # A minute remainder of 8..14 sets the top bit, which does not fit into the
+    # signed 'int8_t deltaCode' field without an explicit conversion (C++11
+    # forbids the narrowing). The brokers read the field back as uint8_t.
+    if (offsetMinute << 4) + (deltaSeconds // 900 + 4) > 127:
+        deltaCode = f"(int8_t) ({deltaCode})"
+    return (offsetCode, deltaCode)
